@@ -61,6 +61,7 @@ type SpecFile struct {
 	Inline    map[string]bool
 	NoContract map[string][]string // unit (lemma/function) -> functions whose contracts are not used there
 	SpecFuncs []string
+	ElemInvs  []string
 	body      bytes.Buffer
 	NAssume   int
 	gen       []string
@@ -123,6 +124,12 @@ func ParseSpecFile(path string) (*SpecFile, error) {
 			for _, f := range fields[1:] {
 				sf.Inline[f] = true
 			}
+		case "elem":
+			// elem <SpecFunc>: every element of a list whose element type is
+			// the parameter type of SpecFunc satisfies it (data-structure
+			// invariant: assumed of lists that come from outside the unit,
+			// proved of lists a function under contract returns)
+			sf.ElemInvs = append(sf.ElemInvs, fields[1:]...)
 		case "contract", "trusted":
 			hdr := strings.TrimSpace(strings.TrimPrefix(trim, fields[0]))
 			c, err := sf.newContract(hdr, ln+1)
@@ -254,7 +261,7 @@ func ParseSpecFile(path string) (*SpecFile, error) {
 
 func isKeyword(s string) bool {
 	switch s {
-	case "import", "inline", "option", "contract", "trusted", "requires", "ensures", "modifies", "pure", "loop", "spec", "lemma":
+	case "import", "inline", "elem", "option", "contract", "trusted", "requires", "ensures", "modifies", "pure", "loop", "spec", "lemma":
 		return true
 	}
 	return false
